@@ -20,16 +20,21 @@ Get(f, k)    == IF k \in DOMAIN f THEN f[k] ELSE None
 Clash(m, n, b) == UidOf(b) # 0 /\ \E x \in DOMAIN m \ {n} : UidOf(m[x]) = UidOf(b)
 
 \* op = [t |-> "put"|"del", n, b, cond]   cond: 0 = unconditional, else required content
+\* -> [m |-> state afterwards, rs |-> admissible answers].  When a put violates both its
+\* etag condition and the UID rule either refusal is admissible (the HTTP handler tests the
+\* header first, the store the UID).
 SeqApply(m, o) ==
-    IF o.t = "read" THEN [m |-> m, r |-> "ok"]
+    IF o.t = "read" THEN [m |-> m, rs |-> {"ok"}]
     ELSE IF o.t = "del" THEN
-        IF o.n \notin DOMAIN m THEN [m |-> m, r |-> "NoSuchItem"]
-        ELSE IF o.cond # 0 /\ m[o.n] # o.cond THEN [m |-> m, r |-> "InvalidETag"]
-        ELSE [m |-> Drop(m, o.n), r |-> "ok"]
+        IF o.n \notin DOMAIN m THEN [m |-> m, rs |-> IF o.cond # 0 THEN {"NoSuchItem", "InvalidETag"} ELSE {"NoSuchItem"}]
+        ELSE IF o.cond # 0 /\ m[o.n] # o.cond THEN [m |-> m, rs |-> {"InvalidETag"}]
+        ELSE [m |-> Drop(m, o.n), rs |-> {"ok"}]
     ELSE
-        IF Clash(m, o.n, o.b) THEN [m |-> m, r |-> "DuplicateUid"]
-        ELSE IF o.cond # 0 /\ Get(m, o.n) # o.cond THEN [m |-> m, r |-> "InvalidETag"]
-        ELSE [m |-> Upd(m, o.n, o.b), r |-> "ok"]
+        LET clash == Clash(m, o.n, o.b)
+            stale == o.cond # 0 /\ Get(m, o.n) # o.cond IN
+        IF clash \/ stale
+          THEN [m |-> m, rs |-> (IF clash THEN {"DuplicateUid"} ELSE {}) \cup (IF stale THEN {"InvalidETag"} ELSE {})]
+          ELSE [m |-> Upd(m, o.n, o.b), rs |-> {"ok"}]
 
 \* ids: set of operation ids; Ops[id] the operation; Res[id] its result;
 \* Before(a, b): a precedes b in its writer's program
@@ -39,7 +44,7 @@ ExplainsFrom(m, todo, Ops, Res, Before(_, _), final) ==
     ELSE \E id \in todo :
             /\ ~\E other \in todo : Before(other, id)
             /\ LET s == SeqApply(m, Ops[id]) IN
-               /\ s.r = Res[id]
+               /\ Res[id] \in s.rs
                /\ ExplainsFrom(s.m, todo \ {id}, Ops, Res, Before, final)
 
 \* the set of states some admissible order of `todo' ends in, reproducing the results
@@ -47,7 +52,7 @@ RECURSIVE EndStates(_, _, _, _, _)
 EndStates(m, todo, Ops, Before(_, _), Res) ==
     IF todo = {} THEN {m}
     ELSE UNION { LET s == SeqApply(m, Ops[id]) IN
-                 IF (\E other \in todo : Before(other, id)) \/ s.r # Res[id] THEN {}
+                 IF (\E other \in todo : Before(other, id)) \/ Res[id] \notin s.rs THEN {}
                  ELSE EndStates(s.m, todo \ {id}, Ops, Before, Res)
                  : id \in todo }
 
